@@ -531,6 +531,8 @@ def m_extend_from_slice(x, r, a, e):
     src = x.deref(a[0])
     if isinstance(r, Buffer):
         r.chunks.extend(src.chunks)
+    elif isinstance(src, Buffer) and not r.items:
+        r.buf = Buffer(list(src.chunks))      # an untyped empty Vec turns out to be a Vec<u8>
     else:
         r.items.extend(src.items)
     return UNIT
@@ -938,7 +940,7 @@ FNS = {
     'RwLock::new': lambda x, a, e: Lock(a[0]), 'Mutex::new': lambda x, a, e: Lock(a[0]),
     'Vec::new': lambda x, a, e: VVec([]), 'HashMap::new': lambda x, a, e: VMap(), 'HashSet::new': lambda x, a, e: VSet(),
     'BTreeMap::new': lambda x, a, e: VMap(), 'String::new': lambda x, a, e: PStr(''),
-    'Vec::with_capacity': lambda x, a, e: x.vec_hint(e) if hasattr(x, 'vec_hint') else Buffer([]),
+    'Vec::with_capacity': lambda x, a, e: VVec([]),
     'HashMap::with_capacity': lambda x, a, e: VMap(),
     'AtomicBool::new': lambda x, a, e: Atomic(a[0]), 'AtomicU16::new': lambda x, a, e: Atomic(x.tobv(a[0], 16), 16),
     'AtomicU64::new': lambda x, a, e: Atomic(x.tobv(a[0], 64), 64), 'AtomicU32::new': lambda x, a, e: Atomic(x.tobv(a[0], 32), 32),
